@@ -600,6 +600,7 @@ func groupScenario(s *Sim, params map[string]string) {
 	installAssignmentMonitor(s, cl)
 	s.OnStep(st.checkCommits)
 
+	expiredCtx := t.Intn("expctx", 3) == 0
 	app := func(gr *gReader) {
 		s.Go(fmt.Sprintf("app%d", gr.k), func() {
 			defer func() { gr.appDone = true; s.Tracef("app%d exits closed=%v crashed=%v", gr.k, gr.closed, gr.crashed) }()
@@ -627,7 +628,20 @@ func groupScenario(s *Sim, params map[string]string) {
 						}
 					}
 				} else {
+					expired := false
+					if expiredCtx && t.Intn("expctx", 5) == 0 {
+						// the application comes back with a context that has
+						// already ended (a per-batch deadline that passed while it
+						// was busy): the call may hand over a queued message or
+						// report the context's error, but must not consume one
+						cancel()
+						expired = true
+						s.Count("fetch-with-ended-context")
+					}
 					m, err := gr.r.FetchMessage(ctx)
+					if expired && err != nil {
+						s.Sleep(time.Millisecond)
+					}
 					if err == nil {
 						st.recordHanded(gr, m, false)
 						s.Count("ops")
@@ -730,11 +744,28 @@ func groupScenario(s *Sim, params map[string]string) {
 			case 0, 1:
 				gr.closed = true
 				s.Count("fault:member-close")
+				twice := t.Intn("dblclose", 3) == 0
+				again := time.Duration(t.Range("dblclose", 0, 400)) * time.Millisecond
 				s.Go(fmt.Sprintf("close%d", gr.k), func() {
 					gr.closeInv, gr.closeInvAt = s.Step, s.Now()
 					gr.r.Close()
-					gr.closeRet, gr.closeRetAt = s.Step, s.Now()
+					if gr.closeRet == 0 {
+						gr.closeRet, gr.closeRetAt = s.Step, s.Now()
+					}
 				})
+				if twice {
+					// a deferred Close and a shutdown handler: the second call
+					// arrives while the first is still tearing the reader down;
+					// whichever returns first, the reader is shut down by then
+					s.Count("reader-closed-twice-concurrently")
+					s.Go(fmt.Sprintf("close%d-again", gr.k), func() {
+						s.Sleep(again)
+						gr.r.Close()
+						if gr.closeRet == 0 {
+							gr.closeRet, gr.closeRetAt = s.Step, s.Now()
+						}
+					})
+				}
 			case 2:
 				gr.crashed = true
 				n.Blackhole[gr.clientID] = true
